@@ -33,6 +33,8 @@ type Program struct {
 	RepoDir   string
 	FileOf    map[string]string // func key -> file base name
 	LoadErrs  []string
+	Detached  map[string]string // contract key -> reason it no longer attaches to the source
+	clauseOwner map[int]string
 }
 
 const specBuiltins = `
@@ -43,6 +45,7 @@ func ite[T any](c bool, a, b T) T { if c { return a }; return b }
 func __forall(lo, hi int, f func(int) bool) bool { for i := lo; i < hi; i++ { if !f(i) { return false } }; return true }
 func __exists(lo, hi int, f func(int) bool) bool { for i := lo; i < hi; i++ { if f(i) { return true } }; return false }
 func __forallInt(f func(int64) bool) bool { return true }
+func __forallRef[T any](f func(*T) bool) bool { return true }
 func toReal[T constraints.Integer | constraints.Float](x T) float64 { return float64(x) }
 func toInt[T constraints.Integer | constraints.Float](x T) int64 { return int64(x) }
 func absI[T constraints.Signed | constraints.Float](x T) T { if x < 0 { return -x }; return x }
@@ -120,44 +123,89 @@ func LoadProgram(repo string) (*Program, error) {
 			}
 		}
 	}
-	// pass 1 info (p0.TypesInfo) is used to find the locals named by loop clauses
-	synth, err := prog.genSynth(p0)
-	if err != nil {
-		return nil, err
-	}
-	prog.SynthSrc = synth
-	sf, err := parser.ParseFile(p0.Fset, "/verif/out/__spec_verif.go", synth, parser.ParseComments)
-	if err != nil {
-		os.WriteFile("/verif/out/__spec_verif.go", []byte(synth), 0o644)
-		return nil, fmt.Errorf("synthesized spec file does not parse: %v", err)
+	// pass 1 info (p0.TypesInfo) is used to find the locals named by loop clauses.
+	// A contract whose clauses no longer type-check against the current source (a local it names
+	// was renamed or changed type) is DETACHED: its obligations are reported as failed for the
+	// properties it serves, and the other contracts are still checked.
+	prog.Detached = map[string]string{}
+	var pkg *types.Package
+	var info *types.Info
+	var sf *ast.File
+	for round := 0; ; round++ {
+		synth, err := prog.genSynth(p0)
+		if err != nil {
+			return nil, err
+		}
+		prog.SynthSrc = synth
+		fname := fmt.Sprintf("/verif/out/__spec_verif_%d.go", round)
+		sf, err = parser.ParseFile(p0.Fset, fname, synth, parser.ParseComments)
+		if err != nil {
+			os.WriteFile("/verif/out/__spec_verif.go", []byte(synth), 0o644)
+			return nil, fmt.Errorf("synthesized spec file does not parse: %v", err)
+		}
+		imp := importerFromPkgs{p0.Imports}
+		info = &types.Info{
+			Types:      map[ast.Expr]types.TypeAndValue{},
+			Defs:       map[*ast.Ident]types.Object{},
+			Uses:       map[*ast.Ident]types.Object{},
+			Selections: map[*ast.SelectorExpr]*types.Selection{},
+			Scopes:     map[ast.Node]*types.Scope{},
+			Instances:  map[*ast.Ident]types.Instance{},
+			Implicits:  map[ast.Node]types.Object{},
+		}
+		var terrs []types.Error
+		tc := &types.Config{Importer: imp, Sizes: p0.TypesSizes, Error: func(err error) {
+			if te, ok := err.(types.Error); ok {
+				if strings.Contains(te.Msg, "imported and not used") {
+					return
+				}
+				terrs = append(terrs, te)
+			}
+		}}
+		files := append([]*ast.File{}, p0.Syntax...)
+		files = append(files, sf)
+		pkg, _ = tc.Check(p0.PkgPath, p0.Fset, files, info)
+		if len(terrs) == 0 {
+			break
+		}
+		// attribute every error to the contract that owns the enclosing clause function
+		progress := false
+		var fatal []string
+		for _, te := range terrs {
+			pos := p0.Fset.Position(te.Pos)
+			owner := ""
+			if pos.Filename == fname {
+				for _, d := range sf.Decls {
+					fd, ok := d.(*ast.FuncDecl)
+					if !ok || !strings.HasPrefix(fd.Name.Name, "__c_") {
+						continue
+					}
+					if te.Pos >= fd.Pos() && te.Pos <= fd.End() {
+						var id int
+						fmt.Sscanf(fd.Name.Name, "__c_%d", &id)
+						owner = prog.clauseOwner[id]
+					}
+				}
+			}
+			if owner == "" {
+				fatal = append(fatal, fmt.Sprintf("%s: %s", pos, te.Msg))
+				continue
+			}
+			if _, seen := prog.Detached[owner]; !seen {
+				prog.Detached[owner] = te.Msg
+				progress = true
+			}
+		}
+		if len(fatal) > 0 || !progress || round > 6 {
+			os.WriteFile("/verif/out/__spec_verif.go", []byte(synth), 0o644)
+			var msgs []string
+			for _, te := range terrs {
+				msgs = append(msgs, fmt.Sprintf("%s: %s", p0.Fset.Position(te.Pos), te.Msg))
+			}
+			return nil, fmt.Errorf("contract type errors (spec file dumped to /verif/out/__spec_verif.go):\n  %s", strings.Join(msgs, "\n  "))
+		}
 	}
 	prog.SynthFile = sf
-	// pass 2: type-check code + spec file together
-	imp := importerFromPkgs{p0.Imports}
-	info := &types.Info{
-		Types:      map[ast.Expr]types.TypeAndValue{},
-		Defs:       map[*ast.Ident]types.Object{},
-		Uses:       map[*ast.Ident]types.Object{},
-		Selections: map[*ast.SelectorExpr]*types.Selection{},
-		Scopes:     map[ast.Node]*types.Scope{},
-		Instances:  map[*ast.Ident]types.Instance{},
-		Implicits:  map[ast.Node]types.Object{},
-	}
-	var terrs []string
-	tc := &types.Config{Importer: imp, Sizes: p0.TypesSizes, Error: func(err error) {
-		s := err.Error()
-		if strings.Contains(s, "imported and not used") {
-			return
-		}
-		terrs = append(terrs, s)
-	}}
-	files := append([]*ast.File{}, p0.Syntax...)
-	files = append(files, sf)
-	pkg, _ := tc.Check(p0.PkgPath, p0.Fset, files, info)
-	if len(terrs) > 0 {
-		os.WriteFile("/verif/out/__spec_verif.go", []byte(synth), 0o644)
-		return nil, fmt.Errorf("contract type errors (spec file dumped to /verif/out/__spec_verif.go):\n  %s", strings.Join(terrs, "\n  "))
-	}
 	prog.Pkg = pkg
 	prog.Info = info
 	prog.Files = p0.Syntax
@@ -240,6 +288,18 @@ func rewriteQuant(e ast.Expr) ast.Expr {
 						Body: &ast.BlockStmt{List: []ast.Stmt{&ast.ReturnStmt{Results: []ast.Expr{x.Args[3]}}}},
 					}
 					return &ast.CallExpr{Fun: ast.NewIdent("__" + id.Name), Args: []ast.Expr{x.Args[1], x.Args[2], fl}}
+				}
+			}
+			if id, ok := x.Fun.(*ast.Ident); ok && id.Name == "forallp" && len(x.Args) == 3 {
+				if v, ok := x.Args[0].(*ast.Ident); ok {
+					fl := &ast.FuncLit{
+						Type: &ast.FuncType{
+							Params:  &ast.FieldList{List: []*ast.Field{{Names: []*ast.Ident{ast.NewIdent(v.Name)}, Type: &ast.StarExpr{X: x.Args[1]}}}},
+							Results: &ast.FieldList{List: []*ast.Field{{Type: ast.NewIdent("bool")}}},
+						},
+						Body: &ast.BlockStmt{List: []ast.Stmt{&ast.ReturnStmt{Results: []ast.Expr{x.Args[2]}}}},
+					}
+					return &ast.CallExpr{Fun: ast.NewIdent("__forallRef"), Args: []ast.Expr{fl}}
 				}
 			}
 			if id, ok := x.Fun.(*ast.Ident); ok && id.Name == "forallInt" && len(x.Args) == 2 {
@@ -603,13 +663,24 @@ func (prog *Program) genSynth(p0 *packages.Package) (string, error) {
 		}
 		return p.Name()
 	}
+	prog.clauseOwner = map[int]string{}
 	for _, fc := range prog.C.Funcs {
 		fd := prog.Funcs[fc.Name]
 		if fd == nil {
+			if prog.Detached != nil {
+				prog.Detached[fc.Key()] = "no function " + fc.Name + " in the package any more"
+				continue
+			}
 			return "", fmt.Errorf("contracts:%d: no function %q in package", fc.Line, fc.Name)
 		}
+		if _, det := prog.Detached[fc.Key()]; det {
+			continue
+		}
+		var fb strings.Builder
+		ferr := func() error {
 		loops := loopsOf(fd.Body)
 		emit := func(cl *Clause, withResults bool, loopPath string, retType string, at ...token.Pos) error {
+			prog.clauseOwner[cl.ID] = fc.Key()
 			txt, e, err := parseSpecExpr(cl.Text)
 			if err != nil {
 				return fmt.Errorf("contracts:%d: %s %s: %v", cl.Line, fc.Name, cl.Kind, err)
@@ -642,8 +713,14 @@ func (prog *Program) genSynth(p0 *packages.Package) (string, error) {
 				switch x := lp.(type) {
 				case *ast.ForStmt:
 					pos = x.Body.Lbrace + 1
+					if cl.Kind == "step" {
+						pos = x.Body.Rbrace
+					}
 				case *ast.RangeStmt:
 					pos = x.Body.Lbrace + 1
+					if cl.Kind == "step" {
+						pos = x.Body.Rbrace
+					}
 					if !have["_i"] {
 						params = append(params, "_i int")
 						have["_i"] = true
@@ -667,31 +744,31 @@ func (prog *Program) genSynth(p0 *packages.Package) (string, error) {
 			if retType == "int64" {
 				txt = "toInt(" + txt + ")"
 			}
-			fmt.Fprintf(&b, "\n// %s %s (contracts line %d)\nfunc %s%s(%s) %s { return %s }\n", fc.Key(), cl.Kind, cl.Line, cl.FnName, tparams, strings.Join(params, ", "), retType, txt)
+			fmt.Fprintf(&fb, "\n// %s %s (contracts line %d)\nfunc %s%s(%s) %s { return %s }\n", fc.Key(), cl.Kind, cl.Line, cl.FnName, tparams, strings.Join(params, ", "), retType, txt)
 			return nil
 		}
 		for _, cl := range append(append([]*Clause{}, fc.Requires...), fc.Assumes...) {
 			if err := emit(cl, false, "", "bool"); err != nil {
-				return "", err
+				return err
 			}
 		}
 		if fc.Panics != nil {
 			if err := emit(fc.Panics, false, "", "bool"); err != nil {
-				return "", err
+				return err
 			}
 		}
 		for _, cl := range fc.Ensures {
 			if err := emit(cl, true, "", "bool"); err != nil {
-				return "", err
+				return err
 			}
 		}
 		for _, ac := range fc.Asserts {
 			stmt := assignStmtOf(fd.Body, ac.Var, ac.Occ)
 			if stmt == nil {
-				return "", fmt.Errorf("contracts:%d: %s: no assignment #%d to %s", ac.Cl.Line, fc.Name, ac.Occ, ac.Var)
+				return fmt.Errorf("contracts:%d: %s: no assignment #%d to %s", ac.Cl.Line, fc.Name, ac.Occ, ac.Var)
 			}
 			if err := emit(ac.Cl, false, "", "bool", stmt.End()); err != nil {
-				return "", err
+				return err
 			}
 		}
 		var lps []string
@@ -703,15 +780,26 @@ func (prog *Program) genSynth(p0 *packages.Package) (string, error) {
 			lc := fc.Loops[k]
 			for _, cl := range append(append([]*Clause{}, lc.Invariants...), lc.Steps...) {
 				if err := emit(cl, false, k, "bool"); err != nil {
-					return "", err
+					return err
 				}
 			}
 			if lc.Decreases != nil {
 				if err := emit(lc.Decreases, false, k, "int64"); err != nil {
-					return "", err
+					return err
 				}
 			}
 		}
+	
+			return nil
+		}()
+		if ferr != nil {
+			if prog.Detached != nil {
+				prog.Detached[fc.Key()] = ferr.Error()
+				continue
+			}
+			return "", ferr
+		}
+		b.WriteString(fb.String())
 	}
 	return b.String(), nil
 }
